@@ -3,6 +3,6 @@
 WT=$1; PID=$2; TIER=${3:-quick}
 T=/tmp/verif-try-$PID-$$
 rsync -a --exclude .git --exclude .scratch --exclude replays --exclude evidence /verif/ $T/
-(cd $T && VERIF_REPO=$WT ./check $PID --tier $TIER 2>&1 | grep -v WARNING | tail -${LINES_OUT:-8})
+(cd $T && VERIF_REPO=$WT ./check $PID --tier $TIER 2>&1 | grep -E '^(VIOLATION|KNOWN-FINDING|BROKEN|C[0-9]+ tier=)' | cut -c1-400 | awk '/^BROKEN/{b++; if(b>6) next} {print}')
 echo "rc=$?"
 [ -n "$KEEP" ] && echo "kept $T" || rm -rf $T
